@@ -264,7 +264,11 @@ def run(ctx):
             inner = v.args[1] if fname(v) == "guarded" else v
             guard = v.args[0] if fname(v) == "guarded" else T.TRUE_T
             want = op("concat", sp.Tuple(op("item", P("dsA"), k), op("item", P("dsB"), k)), dimv)
-            okc = T.equivalent(inner, want) == T.Verdict.EQUAL and guard in (T.CMP("ne", k, dimv), T.NOT(T.CMP("eq", k, dimv)))
+            # the dimension variable itself is left out either by a guard at the store or by filtering the names beforehand
+            prefiltered = fname(k) == "elem" and fname(k.args[0]) == "comp_list" and len(k.args[0].args) == 3 and k.args[0].args[2] in (
+                T.CMP("ne", dimv, k.args[0].args[0]), T.CMP("ne", k.args[0].args[0], dimv))
+            okc = T.equivalent(inner, want) == T.Verdict.EQUAL and (guard in (T.CMP("ne", k, dimv), T.NOT(T.CMP("eq", k, dimv)))
+                                                                     or (guard == T.TRUE_T and prefiltered))
             okall = len(k.args) >= 1 and k.args[0] in (T.to_term(A), T.to_term(A.fields["dataset"]) if hasattr(A, "fields") else None)
         # a definite "wrong" needs the concatenation to be understood: a concat of per-variable entries of the inputs.  Pieces
         # gathered through containers the engine does not follow (lists in a dict keyed by a symbolic name) are not a verdict.
